@@ -200,7 +200,28 @@ pub fn property() -> Property {
     let max_tag = RandomSub::<Vec<String>>::new(
         "max-tag",
         (30_000, 600_000),
-        |_| proptest::collection::vec((0..1800usize, any::<u64>()).prop_map(|(i, b)| gens::pep::spell(&universe()[i], &Spelling::from_bits(b), true)), 1..8).boxed(),
+        |_| {
+            let tag = || (0..1800usize, any::<u64>()).prop_map(|(i, b)| gens::pep::spell(&universe()[i], &Spelling::from_bits(b), true));
+            prop_oneof![
+                3 => proptest::collection::vec(tag(), 1..8),
+                // "twins": one tag re-written with a single separator exchanged for another one
+                // ('-' '.' '_' or none).  Most such pairs are spellings of one version; some are
+                // different versions (1.0-1 is 1.0.post1, 1.0.1 is a release)
+                2 => (proptest::collection::vec(tag(), 1..5), any::<prop::sample::Index>(), any::<prop::sample::Index>(), gens::pick(&[".", "-", "_", ""]), any::<bool>()).prop_map(|(mut v, which, at, rep, front)| {
+                    let s = v[which.index(v.len())].clone();
+                    let seps: Vec<usize> = s.char_indices().filter(|(_, c)| matches!(c, '.' | '-' | '_')).map(|(i, _)| i).collect();
+                    if !seps.is_empty() {
+                        let i = seps[at.index(seps.len())];
+                        let t = format!("{}{}{}", &s[..i], rep, &s[i + 1..]);
+                        if t != s && opep::parse(&t).is_some() {
+                            if front { v.insert(0, t) } else { v.push(t) }
+                        }
+                    }
+                    v
+                }),
+            ]
+            .boxed()
+        },
         |tags, cx| {
             let valid = GitUtils::filter_only_valid_tags(tags, "pep440");
             ensure!(valid.len() == tags.len(), "filter_only_valid_tags dropped valid PEP 440 tags from {tags:?}");
